@@ -14,6 +14,7 @@ import (
 )
 
 type Env struct {
+	callArgs map[string][]Value
 	callRes  map[string][]Value
 	fr       *Frame
 	st       *State
@@ -324,7 +325,15 @@ func (e *Env) selector(t *ast.SelectorExpr) Value {
 		if !e.noLocals && e.fr != nil {
 			_, isLocal = e.fr.env[id.Name]
 		}
-		if !isVar && !isBound && !isLocal {
+		isPkgVar := false
+		if ps := e.pkgScope(); ps != nil {
+			if o := ps.Scope().Lookup(id.Name); o != nil {
+				if _, ok := o.(*types.Var); ok {
+					isPkgVar = true
+				}
+			}
+		}
+		if !isVar && !isBound && !isLocal && !isPkgVar {
 			if p := e.lookupPkg(id.Name); p != nil {
 				o := p.Scope().Lookup(t.Sel.Name)
 				if o == nil {
@@ -447,9 +456,17 @@ func (e *Env) eqValues(a, b Value) *Term {
 func (e *Env) binary(t *ast.BinaryExpr) Value {
 	switch t.Op {
 	case token.LAND:
-		return Scalar{And(e.evalBool(t.X), e.evalBool(t.Y))}
+		a := e.evalBool(t.X)
+		if a.IsFalse() {
+			return Scalar{False}
+		}
+		return Scalar{And(a, e.evalBool(t.Y))}
 	case token.LOR:
-		return Scalar{Or(e.evalBool(t.X), e.evalBool(t.Y))}
+		a := e.evalBool(t.X)
+		if a.IsTrue() {
+			return Scalar{True}
+		}
+		return Scalar{Or(a, e.evalBool(t.Y))}
 	}
 	a, b := e.eval(t.X), e.eval(t.Y)
 	switch t.Op {
@@ -624,6 +641,21 @@ func (e *Env) callExpr(t *ast.CallExpr) Value {
 			return Scalar{Forall([]*Term{bv}, Implies(rng, body))}
 		}
 		return Scalar{Exists([]*Term{bv}, And(rng, body))}
+	case "callarg":
+		kv, ok := arg(0).(Scalar)
+		if !ok || !kv.T.IsStr() {
+			fail("contract: callarg needs a string literal")
+		}
+		ca := e.callArgs
+		if ca == nil {
+			ca = e.st.callArgs
+		}
+		for k, v := range ca {
+			if strings.HasSuffix(k, kv.T.S) {
+				return v[int(targ(1).I.Int64())]
+			}
+		}
+		fail("contract: callarg(%s): no such call on this path (guard with called())", kv.T.S)
 	case "called", "callres":
 		// called("callee#n"), callres("callee#n", i): results of a contract-applied call on this path
 		kv, ok := arg(0).(Scalar)
@@ -631,8 +663,8 @@ func (e *Env) callExpr(t *ast.CallExpr) Value {
 			fail("contract: %s needs a string literal", name)
 		}
 		cr := e.callRes
-		if cr == nil && e.fr != nil {
-			cr = e.fr.callRes
+		if cr == nil {
+			cr = e.st.callRes
 		}
 		var hit []Value
 		found := false
@@ -750,6 +782,7 @@ func (e *Env) assign(x ast.Expr, v Value) {
 
 func (e *Env) storePtr(p Ptr, v Value, t types.Type) {
 	st := e.st
+	p = st.canon(p).(Ptr)
 	var elem types.Type
 	if len(p.Path) == 0 {
 		elem = p.Elem
@@ -787,6 +820,7 @@ func (e *Env) lvalue(x ast.Expr) (Ptr, types.Type) {
 		if !ok {
 			fail("contract: lvalue %s: base is %T, need pointer", exprStr(x), base)
 		}
+		p = e.st.canon(p).(Ptr)
 		cur := e.frLoad(p)
 		s, ok := cur.(Struct)
 		if !ok {
